@@ -356,6 +356,16 @@ CLAIMED["C16"]["note"] += (" Known finding F17 (an executor thread outliving its
 PENDING_REASON = "check not built yet in this round (model and theorems in progress); see DESIGN.md section 7"
 
 checks = []
+# round 9: further translator ties (tools/ties.json)
+CLAIMED["C05"]["text"] += (" get_protocol itself is regenerated from the code on every run (tools/translate_version.py -> Generated/VersionBodies.lean over "
+                           "Model/LitVersion.lean: the lazy next(...) over sorted(PROTOCOL_VERSIONS, reverse=True), the `not AwesomeVersion(v) < AwesomeVersion(key)` "
+                           "condition, the default module) and Lemmas/VersionBodiesEq.lean proves getProtocol_eq: the generated function equals getProtocolX for every str.")
+CLAIMED["C05"]["technique"] += " + get_protocol translated from the Python AST with an equality proof (VersionBodiesEq)"
+CLAIMED["C16"]["text"] += (" The except/suppress clauses of Persistence.start are located by what they protect (Gen.excPersistStartSleep / excPersistStartAwait), and the "
+                           "lifecycle invariant is proved for both readings of the sleep clause, so only `suppress(CancelledError)` around `await task` is an obligation.")
+CLAIMED["C17"]["text"] += (" The except clauses of StreamTransport.read are extracted per try block with the error each raises (Gen.excStreamReadBlocks); the model maps an "
+                           "exception through the block, and readClauses*_table proves the translated clause list equals the extracted block up to merging of clauses.")
+
 for pid, c in CLAIMED.items():
     checks.append({
         "property_id": pid,
